@@ -166,10 +166,13 @@ def frame(a, prolog, body):
     ct = 'application/soap+xml' if prot == 'soap12' else 'text/xml'
     if a['framing'] == 'charset_decl':
         ct += '; charset=utf-8'
-    if a['framing'] == 'multipart':
+    if a['framing'] in ('multipart', 'multipart_att'):
         b = 'MIMEBOUNDARY42'
+        att = b''
+        if a['framing'] == 'multipart_att':
+            att = ('\r\n--%s\r\nContent-Type: application/octet-stream\r\nContent-Transfer-Encoding: base64\r\nContent-ID: <att1>\r\n\r\nAAEC' % b).encode()
         doc = (('--%s\r\nContent-Type: %s; charset=utf-8\r\nContent-Transfer-Encoding: 8bit\r\nContent-ID: <root>\r\n\r\n' % (b, ct)).encode() + doc
-               + ('\r\n--%s--\r\n' % b).encode())
+               + att + ('\r\n--%s--\r\n' % b).encode())
         ct = 'multipart/related; boundary="%s"; type="%s"; start="<root>"' % (b, ct)
     return doc, ct
 
